@@ -709,6 +709,13 @@ def gen_axis(rng, n, kmode, tagunits):
         for _ in range(m):
             ticks.append(t)
             t = t + rng.choice(STEPS + [Fraction(0)] if rng.random() < 0.12 else STEPS)
+        if m >= 2 and rng.random() < 0.3:
+            # repeated-tick stratum: a run of 2-3 equal ticks at the start, inside or at the end of the axis
+            ln = min(rng.choice([2, 2, 3]), m)
+            a = rng.choice([0, m - ln, rng.randint(0, m - ln)])
+            for j in range(a + 1, a + ln):
+                ticks[j] = ticks[a]
+            ax["runs"] = [(i, j) for i, j, _ in _runs(ticks[:n])]
         ax["ticks"] = ticks
     if tagunits:
         ax["base"] = rng.choice(BASES)
@@ -748,6 +755,8 @@ def axis_step(ax, k):
 def gen_region(rng, ax):
     """(position, extent) on one axis in tag units; extent None = no entry"""
     n = ax["n"]
+    if ax.get("runs") and rng.random() < 0.6:
+        return gen_region_on_run(rng, ax)
     k = rng.choice([0, 0, 1, n - 1, n - 1, n, n + 1, -1, rng.randint(0, max(n - 1, 0)), rng.randint(0, max(n - 1, 0))])
     step = axis_step(ax, k)
     p = axis_coord(ax, k) + rng.choice(DELTAS) * step
@@ -766,6 +775,29 @@ def gen_region(rng, ax):
     else:
         e = -rng.choice([Fraction(1), Fraction(1, 2)]) * step
     return p, e
+
+
+def gen_region_on_run(rng, ax):
+    """a region of an irregular axis with a run of equal ticks whose position or end lies exactly on the repeated
+    value (or a hair / half a step beside it)"""
+    a, b = rng.choice(ax["runs"])
+    t = ax["ticks"]
+    v = t[a]
+    r = rng.random()
+    if r < 0.3:                                                          # a point on the run
+        return v, Fraction(0)
+    if r < 0.7:                                                          # the end on the run
+        k = rng.randint(0, a)
+        p = t[k] if k < a else v - rng.choice([Fraction(1, 2), Fraction(1, 4), Fraction(0)])
+        if rng.random() < 0.25:
+            p -= rng.choice([Fraction(1, 4), Fraction(1, 2)])
+        return p, v - p
+    if r < 0.9:                                                          # the start on the run
+        k = rng.randint(b, len(t) - 1)
+        e = t[k] - v if k > b else rng.choice([Fraction(1, 4), Fraction(1, 2), Fraction(1, 2 ** 20)])
+        return v, e + rng.choice([Fraction(0), Fraction(0), Fraction(1, 4)])
+    d = rng.choice([Fraction(1, 4), Fraction(1, 2 ** 20)])               # the run strictly inside a small region
+    return v - d, 2 * d
 
 
 def scale_of(ax):
@@ -1099,7 +1131,8 @@ def gen_malformed(rng):
 
 def gen_cases(ctx, n_scen, n_sweeps):
     rng = ctx.rng
-    cases, tags = [], []
+    cases = repeated_tick_cases()
+    tags = ["repeated-ticks"] * len(cases)
     for _ in range(n_scen):
         for c in gen_scenario(rng):
             cases.append(c)
@@ -1455,7 +1488,112 @@ def check_case(impl, case):
                    {"ok": {"valid": True, "window": o[1], "read": "window"}}, site_of(case)), "fail"
 
 
+def _runs(ticks):
+    """maximal runs of equal ticks of length >= 2: [(first index, last index, value)]"""
+    out, i = [], 0
+    while i < len(ticks):
+        j = i
+        while j + 1 < len(ticks) and ticks[j + 1] == ticks[i]:
+            j += 1
+        if j > i:
+            out.append((i, j, ticks[i]))
+        i = j + 1
+    return out
+
+
+REPEATED_LAYOUTS = [
+    # ticks (tag units), tag prefix, dimension prefix, base unit (None: no units at all)
+    ([1, 1, 2, Fraction(7, 2), 5, 6], None, None, None),                     # pair at the start
+    ([1, 2, 2, Fraction(7, 2), 5, 6], "m", "m", "s"),                        # pair inside
+    ([1, 2, Fraction(7, 2), 5, 6, 6], "", "m", "s"),                         # pair at the end, s -> ms
+    ([-1, -1, -1, Fraction(5, 2), 4, 6], "k", "", "Hz"),                     # triple at the start, kHz -> Hz
+    ([1, 2, 2, 2, Fraction(9, 2), 6], None, None, None),                     # triple inside
+    ([1, 2, Fraction(7, 2), 6, 6, 6], "u", "u", "V"),                        # triple at the end
+    ([0, 0, Fraction(3, 2), 3, 3, 3, 4, 4], "M", "", "Pa"),                  # several runs, MPa -> Pa
+    ([2, 2, 2], None, None, None),                                           # nothing but one run
+]
+
+
+def repeated_tick_cases():
+    """Irregular axes holding repeated tick values (two events with the same time stamp are legal: the setter only
+    rejects descending ticks).  Every sample of a run has the same coordinate, so a region takes all of them or none:
+    points (no extent / extent 0) exactly on the repeated value, regions ending on it (included under Inclusive,
+    excluded under Exclusive), regions starting on it, a control region ending between ticks; both stop rules, Tag and
+    MultiTag (2-D positions with extents, and positions without extents), rank 1 and rank 2 (the irregular axis first
+    or second).  Deterministic; run first by the oracle and by the correspondence."""
+    out = []
+    for li, (ticks, tp, dp, ub) in enumerate(REPEATED_LAYOUTS):
+        ticks = [Fraction(t) for t in ticks]
+        n = len(ticks)
+        ax = {"kind": "range", "n": n, "ticks": ticks, "tp": tp, "dp": dp, "base": ub}
+        rdim = axis_dim(ax)
+        tunit = [] if ub is None else [tp + ub]
+        regions = []                                                          # (position, extent | None)
+        for a, b, v in _runs(ticks):
+            before = ticks[a - 1] if a > 0 else v - Fraction(1, 2)
+            first = ticks[0] if a > 0 else v - Fraction(1, 2)
+            after = ticks[b + 1] if b + 1 < n else v + Fraction(1, 2)
+            regions += [(v, None), (v, Fraction(0)),
+                        (before, v - before), (first, v - first),             # end exactly on the repeated value
+                        (v, after - v), (v, (after - v) / 2),                 # start exactly on it
+                        (before, v - before + (after - v) / 2),               # control: end between two ticks
+                        (v - Fraction(1, 4), Fraction(1, 2))]                 # only the run lies inside
+        regions = [r for k, r in enumerate(regions) if r not in regions[:k]]
+        for rank in (1, 2):
+            if rank == 1:
+                shape, dims, units, rax = [n], [rdim], list(tunit), 0
+                other_p, other_e = [], []
+            else:
+                rax = li % 2                                                  # irregular axis second / first
+                odim = ["sampled", "1/2", "1/2", None if ub is None else "mV"] if li % 3 else ["set", 4]
+                shape, dims = ([4, n], [odim, rdim]) if rax else ([n, 4], [rdim, odim])
+                if ub is None:
+                    units = []
+                else:
+                    ou = ["mV" if odim[0] == "sampled" else "none"]
+                    units = (ou + tunit) if rax else (tunit + ou)
+                other_p, other_e = [Fraction(1)], [Fraction(1)]
+
+            def vec(x, other):
+                v_ = ([x] + other) if rax == 0 else (other + [x])
+                return [fs(y) for y in v_]
+            base = {"shape": shape, "dims": dims, "units": units, "op": "tagged", "nrefs": 1, "refidx": 0}
+            with_ext = [(p, e) for p, e in regions if e is not None]
+            mpos = {"r": 2, "c": rank, "v": [vec(p, other_p) for p, _ in with_ext]}
+            mext = {"r": 2, "c": rank, "v": [vec(e, other_e) for _, e in with_ext]}
+            ppos = {"r": 2, "c": rank, "v": [vec(p, other_p) for p, _ in regions]}
+            if rank == 1 and li % 2:
+                ppos = {"r": 1, "v": [fs(p) for p, _ in regions]}
+            for stop in STOPS:
+                for p, e in regions:
+                    out.append(dict(base, k="tag", pos=vec(p, other_p), ext=[] if e is None else vec(e, other_e),
+                                    stop=stop))
+                for i in range(len(with_ext)):
+                    out.append(dict(base, k="mtag", pos=mpos, ext=mext, idx=i, stop=stop))
+                for i in range(len(regions)):
+                    if regions[i][1] is None or li % 4 == 0:
+                        out.append(dict(base, k="mtag", pos=ppos, ext=None, idx=i, stop=stop))
+    # a tagged feature on an irregular axis with a run, both stop rules (Tag and MultiTag)
+    ticks, tp, dp, ub = REPEATED_LAYOUTS[1]
+    ax = {"kind": "range", "n": len(ticks), "ticks": [Fraction(t) for t in ticks], "tp": tp, "dp": dp, "base": ub}
+    fb = {"shape": [len(ticks)], "dims": [axis_dim(ax)], "units": [tp + ub], "op": "feature", "nfeats": 1,
+          "link": "tagged"}
+    rows = [(Fraction(2), Fraction(0)), (Fraction(1), Fraction(1)), (Fraction(2), Fraction(3, 2)),
+            (Fraction(1), Fraction(5, 2))]
+    for stop in STOPS:
+        for p, e in rows:
+            out.append(dict(fb, k="tag", pos=[fs(p)], ext=[fs(e)], stop=stop))
+        for i in range(len(rows)):
+            out.append(dict(fb, k="mtag", pos={"r": 1, "v": [fs(p) for p, _ in rows]},
+                            ext={"r": 1, "v": [fs(e) for _, e in rows]}, idx=i, stop=stop))
+    return out
+
+
 def _fixed_cases():
+    return repeated_tick_cases() + _fixed_cases_r1()
+
+
+def _fixed_cases_r1():
     sm = ["sampled", "1/1", "1/2", "ms"]
     base = {"k": "tag", "op": "tagged", "nrefs": 1, "refidx": 0, "stop": "Exclusive"}
     out = [
